@@ -41,6 +41,33 @@ type ForcePD struct {
 
 /* -------------------------------------------------------------------------- */
 
+// The specialised implementations return concrete (possibly nil) pointers:
+// convert them so that a missing result is a nil interface, as it is for the
+// generic implementation
+func resultFloat32(l, d *DenseFloat32Matrix, err error) (Matrix, Matrix, error) {
+  var L, D Matrix
+  if l != nil {
+    L = l
+  }
+  if d != nil {
+    D = d
+  }
+  return L, D, err
+}
+
+func resultFloat64(l, d *DenseFloat64Matrix, err error) (Matrix, Matrix, error) {
+  var L, D Matrix
+  if l != nil {
+    L = l
+  }
+  if d != nil {
+    D = d
+  }
+  return L, D, err
+}
+
+/* -------------------------------------------------------------------------- */
+
 func Run(a ConstMatrix, args ...interface{}) (Matrix, Matrix, error) {
   n, m := a.Dims()
   if n != m {
@@ -94,9 +121,9 @@ func Run(a ConstMatrix, args ...interface{}) (Matrix, Matrix, error) {
       t, ok5 := inSitu.T.( Float32)
       if ok1 && ok2 && ok3 && ok4 && ok5 {
         if forcePD {
-          return cholesky_ldl_forcepd_float32(A, L, D, s, t)
+          return resultFloat32(cholesky_ldl_forcepd_float32(A, L, D, s, t))
         } else {
-          return cholesky_ldl_float32(A, L, D, s, t)
+          return resultFloat32(cholesky_ldl_float32(A, L, D, s, t))
         }
       }
     }
@@ -108,9 +135,9 @@ func Run(a ConstMatrix, args ...interface{}) (Matrix, Matrix, error) {
       t, ok5 := inSitu.T.( Float64)
       if ok1 && ok2 && ok3 && ok4 && ok5 {
         if forcePD {
-          return cholesky_ldl_forcepd_float64(A, L, D, s, t)
+          return resultFloat64(cholesky_ldl_forcepd_float64(A, L, D, s, t))
         } else {
-          return cholesky_ldl_float64(A, L, D, s, t)
+          return resultFloat64(cholesky_ldl_float64(A, L, D, s, t))
         }
       }
     }
@@ -127,7 +154,7 @@ func Run(a ConstMatrix, args ...interface{}) (Matrix, Matrix, error) {
       s, ok3 := inSitu.S.( Float32)
       t, ok4 := inSitu.T.( Float32)
       if ok1 && ok2 && ok3 && ok4 {
-        return cholesky_float32(A, L, s, t)
+        return resultFloat32(cholesky_float32(A, L, s, t))
       }
     }
     {
@@ -136,7 +163,7 @@ func Run(a ConstMatrix, args ...interface{}) (Matrix, Matrix, error) {
       s, ok3 := inSitu.S.( Float64)
       t, ok4 := inSitu.T.( Float64)
       if ok1 && ok2 && ok3 && ok4 {
-        return cholesky_float64(A, L, s, t)
+        return resultFloat64(cholesky_float64(A, L, s, t))
       }
     }
     return cholesky(a, inSitu.L, inSitu.S, inSitu.T)
